@@ -285,3 +285,54 @@ Example retrieval_second_round :
   let r := retrieval 0 2000 200 [[ok; lost; ok]; [ok; ok; ok]] [500; 750] in
   cr_end r = 704 /\ cr_ok r = true /\ cr_attempts r = 2%nat.
 Proof. vm_compute. repeat split. Qed.
+
+(* ---------- 4. no false failure: the call does complete when the deadline allows ---------- *)
+(* time used by the attempts before the deciding one: each takes min(d, T), then its back-off sleep *)
+Fixpoint spent (T : N) (pre : list attempt_k) (sl : list N) : N :=
+  match pre, sl with
+  | (d, _) :: pre', s :: sl' => N.min d T + s + spent T pre' sl'
+  | _, _ => 0
+  end.
+
+(* if the (n+1)-th attempt is the first to meet a final reply inside the per-attempt timeout, the back-off policy has not
+   given up before it, and the deadline lies beyond the time the earlier attempts and sleeps take plus that reply's delay,
+   then the call succeeds, with exactly n+1 transmissions, at exactly that time.  Inside a session the earlier replies must
+   have arrived (a missing reply is terminal there: C13_session_loss_is_terminal). *)
+Theorem retry_k_completes : forall sess pre sl d post srest t D T,
+  length sl = length pre ->
+  Forall (fun a : attempt_k => is_final (snd a) && (fst a <=? T) = false) pre ->
+  (sess = true -> Forall (fun a : attempt_k => fst a <= T) pre) ->
+  d <= T -> t + spent T pre sl + d < D ->
+  let r := retry_k sess t D T (pre ++ (d, Final) :: post) (sl ++ srest) in
+  cr_ok r = true /\ cr_attempts r = S (length pre) /\ cr_end r = t + spent T pre sl + d.
+Proof.
+  intros sess. induction pre as [|[d0 k0] pre IH]; intros sl d post srest t D T Hlen Hpre Hsess Hd HD.
+  - destruct sl; [|discriminate]. cbn [spent] in HD. cbn [app retry_k is_final andb spent length].
+    destruct (N.leb_spec d (N.min T (D - t))); [|lia]. cbn [cr_ok cr_attempts cr_end].
+    repeat split. lia.
+  - destruct sl as [|s sl]; [discriminate|]. cbn [length] in Hlen. injection Hlen as Hlen.
+    inversion Hpre as [|? ? Hp0 Hp]; subst. cbn [fst snd] in Hp0.
+    cbn [spent] in HD |- *. cbn [app retry_k length].
+    set (window := N.min T (D - t)).
+    assert (Hmin : N.min d0 window = N.min d0 T) by (subst window; lia).
+    assert (E1 : is_final k0 && (d0 <=? window) = false).
+    { destruct (is_final k0); [|reflexivity]. cbn [andb] in Hp0 |- *.
+      apply N.leb_gt in Hp0. apply N.leb_gt. subst window. lia. }
+    rewrite E1.
+    assert (E2 : sess && negb (d0 <=? window) = false).
+    { destruct sess; [|reflexivity]. cbn [andb]. specialize (Hsess eq_refl). inversion Hsess as [|? ? H0 _]; subst.
+      cbn [fst] in H0. apply negb_false_iff. apply N.leb_le. subst window. lia. }
+    rewrite E2. rewrite Hmin.
+    destruct (N.leb_spec D (t + N.min d0 T)); [lia|].
+    destruct (N.leb_spec D (t + N.min d0 T + s)); [lia|].
+    assert (Hsess' : sess = true -> Forall (fun a : attempt_k => fst a <= T) pre).
+    { intros E. specialize (Hsess E). inversion Hsess; assumption. }
+    destruct (IH sl d post srest (t + N.min d0 T + s) D T Hlen Hp Hsess' Hd ltac:(lia)) as [Hok [Hatt Hend]].
+    cbn [cr_ok cr_attempts cr_end]. rewrite Hok, Hatt, Hend. repeat split. lia.
+Qed.
+
+(* two lost replies, then an answer after 1 ms: success at the third transmission *)
+Example completes_after_two_losses :
+  let r := retry_k false 0 880 200 ([(5000, Final); (5000, Final)] ++ (1, Final) :: []) ([100; 100] ++ [100]) in
+  cr_ok r = true /\ cr_attempts r = 3%nat /\ cr_end r = 0 + spent 200 [(5000, Final); (5000, Final)] [100; 100] + 1.
+Proof. vm_compute. repeat split. Qed.
